@@ -420,6 +420,13 @@ class OpWorld(World):
             # the subscriber of a callee stage, behind the wrapper Observable.subscribe puts around it (C01)
             st = o.attrs["state"]
             hn, he, hc = o.attrs["handlers"]
+            if method == "now":
+                # spec primitive of a timed callee stage (timestamp, time_interval): the clock reading of this step
+                if self.now_term is None:
+                    raise Unsupported("out.now() of a callee stage outside a timed contract")
+                return IntSV(self.now_term)
+            if method not in ("on_next", "on_error", "on_completed"):
+                raise Unsupported(f"spec primitive {method} of a callee stage")
             if st["stopped"]:
                 return None
             # the consumer of the stage is code of the side that subscribed to it (the stage's spec machine runs as "spec")
@@ -712,6 +719,19 @@ for _n in ("due_prefix_vals", "due_prefix_completes", "drop_due_prefix"):
     _helper(_n)(_duefun_helper(_n))
 
 
+def _duepred_helper(name):
+    def h(it, args, kw):
+        t = natives.seq_of(it, args[0])
+        if t is None:
+            return True
+        return BoolSV(natives.duepred_apply(it, name, t))
+    return h
+
+
+for _n in ("all_elements", "completion_last"):
+    _helper(_n)(_duepred_helper(_n))
+
+
 # functions of a queue of time-stamped records (see natives.SEQFUNS)
 _helper("drop_aged_prefix")(_seqfun_helper("drop_aged_prefix", "tup:int,val"))
 _helper("aged_prefix_vals")(_seqfun_helper("aged_prefix_vals", "val"))
@@ -736,6 +756,13 @@ def _h_field(it, args, kw):
     if isinstance(o, Obj) and name in o.fields:
         return o.fields[name]
     return default
+
+
+def fresh_exc(ctx, name):
+    """an arbitrary exception object: not None (A-exc); its truth value is arbitrary (a class may define __bool__ / __len__)"""
+    t = ctx.fresh(name, "val").t
+    ctx.assume(t != smt.NONE)
+    return SV(t, "val", tag="exc")
 
 
 def make_param(it, ctx, name, kind):
@@ -1132,7 +1159,7 @@ class OpHarness:
             if k == 0:
                 return it.call(it.module_get(mod, "OnNext"), [ctx.fresh("x", "val")])
             if k == 1:
-                return it.call(it.module_get(mod, "OnError"), [SV(ctx.fresh("nerr", "val").t, "val", tag="exc")])
+                return it.call(it.module_get(mod, "OnError"), [fresh_exc(ctx, "nerr")])
             return it.call(it.module_get(mod, "OnCompleted"), [])
         raise Unsupported(f"element kind {kind}")
 
@@ -1386,6 +1413,22 @@ class OpHarness:
             ok &= self.record(ctx, oid + "/error-payload", ti[1] == ts[1])
         return ok
 
+    def explain_inv(self, it, ctx, env, s, done2):
+        """which conjuncts of the coupling invariant are not re-established (for the report of a refuted obligation)"""
+        import ast
+        try:
+            body = ast.parse(self.c.inv, mode="eval").body
+            parts = [ast.unparse(v) for v in body.values] if isinstance(body, ast.BoolOp) and isinstance(body.op, ast.And) else [self.c.inv]
+            bad = []
+            for cj in parts:
+                t = self.check_inv(it, ctx, "", env, s, base=cj)
+                v, _m, _b = smt.prove(ctx.pc, _bt(natives.mk_or(done2, t)))
+                if v != "proved":
+                    bad.append(cj)
+            return "conjuncts not re-established: " + "; ".join(bad)
+        except Exception as e:  # noqa: BLE001
+            return f"(could not split the invariant: {e})"
+
     def check_inv(self, it, ctx, oid, env, s, extra=None, more=None, base=None):
         inv_env = self.inv_env(it, env, s)
         if extra:
@@ -1471,6 +1514,7 @@ class OpHarness:
 
         def inv_term():
             lenv.vars["emitted"] = emitted()
+            lenv.vars["terminated"] = tr.terminal is not None  # the loop (or the step before it) already ended the output
             if each is not None:
                 lenv.vars["sent"] = sent()
             ctx.spec += 1
@@ -1480,7 +1524,11 @@ class OpHarness:
                 ctx.spec -= 1
 
         oid = f"{self.c.uid}/loop:{key[0]}#{key[1]}"
-        self.record(ctx, oid + "/inv-entry", inv_term(), kind="loop")
+        # after the output ended nothing the loop does is observable and the operator's cells are unconstrained: one arbitrary
+        # iteration still has to run without an exception, the invariant (a statement about what is emitted) is void
+        dead = tr.terminal is not None and tr.terminal == ("X",)
+        if not dead:
+            self.record(ctx, oid + "/inv-entry", inv_term(), kind="loop")
         # havoc
         for n, kind in lc.get("havoc", {}).items():
             get, set_, leaf = resolve_path(it, env, n)
@@ -1489,14 +1537,19 @@ class OpHarness:
             em = ctx.fresh("emitted", "seq")
             del tr.pieces[n0:]
             tr.pieces.append(em.t)
+            if lc.get("may_terminate") and ctx.choose(2, "an earlier iteration already ended the output") == 1:
+                # loops that go on after delivering a terminal notification (delay's drain loop): the arbitrary iteration may
+                # start after that happened - the invariant says what holds then (`terminated`)
+                tr.terminal = (lc["may_terminate"],)
         if each is not None:
             # the iterations so far notified some sequence of subjects (each with the declared notification)
             sv = ctx.fresh("sent", "seq").t
             del w.struct[side][ns0:]
             w.struct[side].append(("each", sv, each[0], each_payload))
         ns1 = len(w.struct[side])
-        it_ = inv_term()
-        ctx.assume(it_ if not isinstance(it_, bool) else z3.BoolVal(it_))
+        if not dead:
+            it_ = inv_term()
+            ctx.assume(it_ if not isinstance(it_, bool) else z3.BoolVal(it_))
         if it.truth(it.eval(st.test, env), "while " + ast.unparse(st.test)[:60]):
             dec0 = None
             if "decreases" in lc:
@@ -1509,6 +1562,8 @@ class OpHarness:
                 return
             except _Continue:
                 pass
+            if dead:
+                raise PathEnd()
             self.record(ctx, oid + "/inv-preserved", inv_term(), kind="loop")
             if each is not None:
                 for e in w.struct[side][ns1:]:
@@ -1576,6 +1631,12 @@ class OpHarness:
             t_sub = ctx.fresh("t_sub", "int").t
             ctx.assume(t_sub >= 1)  # instants are positive tick counts (a datetime is always truthy)
             w.now_term = t_sub
+        params_before = {}
+        if isinstance(sub, Closure) and sub.env is not None:
+            for pn in params:
+                e = sub.env.lookup_env(pn)
+                if e is not None and e.fn is not None:
+                    params_before[pn] = e.vars.get(pn)
         try:
             disp = it.call(sub, [observer, env.vars["scheduler"]], {})
         except PyExc as e:
@@ -1583,6 +1644,19 @@ class OpHarness:
             return None
         finally:
             self.phase = "handlers"
+        # the contract describes ONE subscription in terms of the operator's parameters: a subscription must leave them as they
+        # were (a later subscription starts from the same operator: C04 / C44)
+        if isinstance(sub, Closure) and sub.env is not None:
+            changed = []
+            for pn, pv in params_before.items():
+                e = sub.env.lookup_env(pn)
+                cur = e.vars.get(pn)
+                same_v = cur is pv or (isinstance(cur, SV) and isinstance(pv, SV) and z3.eq(cur.t, pv.t)) or (
+                    isinstance(cur, (int, bool, str, type(None))) and type(cur) is type(pv) and cur == pv)
+                if not same_v:
+                    changed.append(pn)
+            self.record(ctx, f"{uid}/subscribe/leaves-the-operator's-parameters-unchanged", not changed, kind="frame",
+                        detail=f"subscribe assigns to the operator's parameter(s) {changed}: the next subscription sees the changed value")
         self.spec_call(it, s, "on_subscribe", [Opaque("observer", "spec_out")])
         self.compare_traces(ctx, f"{uid}/subscribe/out", w.trace("observer"), w.trace("spec_out"))
         if getattr(c, "timed", False) or getattr(c, "subjects", False):
@@ -1729,7 +1803,7 @@ class OpHarness:
             # nothing after its terminal notification
             raise PathEnd()
         live = getattr(c, "live", None)
-        if live and len(c.sources) > 1:
+        if live:
             # source grammar: the source whose handler runs has not terminated before (it emits nothing after its terminal,
             # nor after its subscription was released)
             env_l = self.inv_env(it, cells_env, s)
@@ -1758,7 +1832,7 @@ class OpHarness:
         if slot == 0:
             args = [self.make_element(it, ctx)]
         elif slot == 1:
-            args = [SV(ctx.fresh("err", "val").t, "val", tag="exc")]
+            args = [fresh_exc(ctx, "err")]
         if h is None:
             raise PathEnd()
         guards0 = self.all_guards(it)
@@ -1802,7 +1876,8 @@ class OpHarness:
                         ((not done2) if isinstance(done2, bool) else z3.Not(done2)), kind="inv")
         if slot == 0 or done2 is not True:
             inv2 = self.check_inv(it, ctx, uid, cells_env, s)
-            self.record(ctx, uid + "/inv-preserved", natives.mk_or(done2, inv2), kind="inv")
+            if not self.record(ctx, uid + "/inv-preserved", natives.mk_or(done2, inv2), kind="inv"):
+                ctx.results[-1].detail = self.explain_inv(it, ctx, cells_env, s, done2)
         self.done_established(it, ctx, uid, cells_env, s, done2)
         self.ghost_post(it, ctx, uid, cells_env, s, gpre)
         v = self.spec_valid(it, ctx, s)
@@ -1914,7 +1989,7 @@ class OpHarness:
         extra = {"k": k, "inner": inner}
         if F.get("inv"):
             # the member's own invariant holds from its creation on
-            invc = self.check_inv(it, ctx, uid, member_env, s, extra=extra, more=F.get("inv"))
+            invc = self.check_inv(it, ctx, uid, member_env, s, extra=extra, base=F.get("inv"))
             donec = self.spec_done(it, ctx, s)
             self.record(ctx, uid + "/member-inv-established-at-creation", natives.mk_or(donec, invc), kind="inv")
             ctx.results[-1].oid = f"{c.uid}/{fam}/member-inv-established-at-creation"
@@ -1941,7 +2016,7 @@ class OpHarness:
         if slot == 0:
             args = [ctx.fresh("x", "val")]
         elif slot == 1:
-            args = [SV(ctx.fresh("err", "val").t, "val", tag="exc")]
+            args = [fresh_exc(ctx, "err")]
         if h is None:
             raise PathEnd()
         try:
@@ -1971,6 +2046,29 @@ class OpHarness:
         inv2 = self.check_inv(it, ctx, uid, cells_env, s)
         done2 = self.spec_done(it, ctx, s)
         self.record(ctx, uid + "/inv-preserved", natives.mk_or(done2, inv2), kind="inv")
+        if F.get("once") and slot in (0, 2):
+            # a member that ends with its first notification must be deaf to whatever its source sends afterwards: a source that
+            # emits from inside subscribe cannot be stopped by disposing a subscription that does not exist yet
+            for slot2 in (0, 2):
+                h2 = member[slot2]
+                if h2 is None:
+                    continue
+                self.begin_step(w, cells_env, s)
+                before2 = self.cell_identities(it)
+                a2 = [ctx.fresh("x_again", "val")] if slot2 == 0 else []
+                nm = ("on_next", "on_error", "on_completed")[slot2]
+                try:
+                    it.call(h2, a2, {})
+                except PyExc as e:
+                    self.fail(ctx, uid + f"/then-{nm}-again/no-exception-escapes", f"exception escapes the handler: {e.value!r}", kind="exc")
+                    continue
+                tr2 = w.trace("observer")
+                quiet = not tr2.pieces and tr2.terminal is None and not w.struct["impl"]
+                after2 = self.cell_identities(it)
+                quiet = quiet and all(_same_identity(before2[n], after2.get(n)) for n in before2)
+                self.record(ctx, uid + f"/then-{nm}-again/a-spent-member-is-deaf", quiet, kind="inv",
+                            detail=f"after its first notification the member's source sends {nm} (synchronously, before its subscription could be "
+                                   f"released): the operator emits {tr2.describe()} / does {[e[0] for e in w.struct['impl']]}")
         if slot == 0 and F.get("inv") and not F.get("once"):
             inv3 = self.check_inv(it, ctx, uid, member_env, s, extra=extra, more=F.get("inv"))
             self.record(ctx, uid + "/member-inv-preserved", natives.mk_or(done2, inv3), kind="inv")
@@ -2002,7 +2100,7 @@ class OpHarness:
             ctx.assume(inv if not isinstance(inv, bool) else z3.BoolVal(inv))
             n0 = len(w.timers)
             self.begin_step(w, cells_env, s)
-            args = [self.make_element(it, ctx)] if slot == 0 else ([SV(ctx.fresh("err", "val").t, "val", tag="exc")] if slot == 1 else [])
+            args = [self.make_element(it, ctx)] if slot == 0 else ([fresh_exc(ctx, "err")] if slot == 1 else [])
             try:
                 it.call(h, args, {})
             except PyExc:
@@ -2035,7 +2133,7 @@ class OpHarness:
             ex0 = {"due": IntSV(due)}
             if ident is not None:
                 ex0["k"] = ident
-            inv_c = self.check_inv(it, ctx, uid, member_env, s, extra=ex0, more=T.get("inv"))
+            inv_c = self.check_inv(it, ctx, uid, member_env, s, extra=ex0, base=T.get("inv"))  # (the operator's own invariant: the creating step)
             self.record(ctx, uid + "/timer-invariant-established-when-set", natives.mk_or(self.spec_done(it, ctx, s), inv_c), kind="inv")
         # --- an arbitrary later state in which this timer is still pending
         self.havoc(it, ctx, cells_env, s)
@@ -2086,7 +2184,8 @@ class OpHarness:
         s.fields["clock"] = IntSV(due)
         inv2 = self.check_inv(it, ctx, uid, cells_env, s)
         done2 = self.spec_done(it, ctx, s)
-        self.record(ctx, uid + "/inv-preserved", natives.mk_or(done2, inv2), kind="inv")
+        if not self.record(ctx, uid + "/inv-preserved", natives.mk_or(done2, inv2), kind="inv"):
+            ctx.results[-1].detail = self.explain_inv(it, ctx, cells_env, s, done2)
         self.done_established(it, ctx, uid, cells_env, s, done2)
         self.ghost_post(it, ctx, uid, cells_env, s, gpre)
 
